@@ -9,6 +9,14 @@ import (
 	"github.com/lmorg/murex/utils/verifhook"
 )
 
+// verifJobFid is only used by the verif instrumentation
+func verifJobFid(p *Process) int64 {
+	if !verifhook.Enabled || p == nil {
+		return 0
+	}
+	return int64(p.Id)
+}
+
 // verifSlots renders the job table for the verif instrumentation ("fid,fid,0,...")
 func verifSlots(jobs []*Process) string {
 	if !verifhook.Enabled {
@@ -37,7 +45,7 @@ func NewJobs() *jobs {
 func (j *jobs) Add(p *Process) {
 	j.mutex.Lock()
 	j.jobs = append(j.jobs, p)
-	verifhook.Emit(j, "jobs.add", "", int64(p.Id), int64(len(j.jobs)))
+	verifhook.Emit(j, "jobs.add", "", verifJobFid(p), int64(len(j.jobs)))
 	j.mutex.Unlock()
 }
 
@@ -92,7 +100,7 @@ func (j *jobs) Get(jobId int) (*Process, error) {
 		return nil, fmt.Errorf("job '%d' has already terminated", jobId)
 	}
 
-	verifhook.Emit(j, "jobs.get", "", int64(jobId), int64(j.jobs[i].Id))
+	verifhook.Emit(j, "jobs.get", "", int64(jobId), verifJobFid(j.jobs[i]))
 	return j.jobs[i], nil
 }
 
@@ -104,7 +112,7 @@ func (j *jobs) GetLatest() (*Process, error) {
 		if j._hasTerminated(i) {
 			continue
 		}
-		verifhook.Emit(j, "jobs.latest", "", int64(i+1), int64(j.jobs[i].Id))
+		verifhook.Emit(j, "jobs.latest", "", int64(i+1), verifJobFid(j.jobs[i]))
 		return j.jobs[i], nil
 	}
 
